@@ -171,6 +171,7 @@ func CheckWire(tap []Ev, facts []StreamFacts) (viol []string, projections int, n
 		sstate := "start"
 		trailers := 0
 		firstServerResetSeq := -1
+		resetBeforeTrailer := -1
 		for i, e := range p.s2c {
 			_, b, s, t, r := envParts(e.Rpc)
 			switch {
@@ -179,8 +180,12 @@ func CheckWire(tap []Ev, facts []StreamFacts) (viol []string, projections int, n
 				if firstServerResetSeq < 0 {
 					firstServerResetSeq = e.Seq
 				}
-				if sstate != "closed" && f.HandlerReturned {
-					bad("%s id %d s->c #%d: server reset overtakes the trailer of the handler that ran for this stream", f.Conn, f.ID, e.Seq)
+				if sstate != "closed" {
+					if f.HandlerReturned && !f.CallerReset && !f.ConnFailed {
+						// here a trailer is owed, so a reset that comes first has overtaken it
+						bad("%s id %d s->c #%d: server reset overtakes the trailer of the handler that ran for this stream", f.Conn, f.ID, e.Seq)
+					}
+					resetBeforeTrailer = e.Seq
 				}
 				// a server reset answers a body for a stream it does not (any longer) know
 				if !bodyBefore(p.c2s, e.Seq) {
@@ -190,6 +195,9 @@ func CheckWire(tap []Ev, facts []StreamFacts) (viol []string, projections int, n
 				bad("%s id %d s->c #%d: %q after the stream's trailer", f.Conn, f.ID, e.Seq, Shape(e.Rpc))
 			case t:
 				trailers++
+				if resetBeforeTrailer >= 0 {
+					bad("%s id %d s->c #%d: this trailer was overtaken by the server's reset #%d", f.Conn, f.ID, e.Seq, resetBeforeTrailer)
+				}
 				if !s {
 					bad("%s id %d s->c #%d: trailer without a status", f.Conn, f.ID, e.Seq)
 				}
